@@ -78,6 +78,12 @@ def check_cloud(case, ctx):
                                    ("xarray dimension coordinate", (xr.DataArray(se, dims="x", coords={"x": se}).x, xr.DataArray(sn, dims="y", coords={"y": sn}).y))):
                 alt = vd.get_region((ce, cn))
                 ctx.check(tuple(float(v) for v in alt) == exp, "get_region of %s %s axes is %r, the bounding box is %r", "ascending" if direction == 1 else "descending", name, alt, exp)
+    # a single point given as Python scalars or 0-d arrays: a 0-d answer with the same truth value
+    x0, y0 = float(np.ravel(e)[0]), float(np.ravel(n)[0])
+    for form, pt in (("Python floats", (x0, y0)), ("0-d arrays", (np.array(x0), np.array(y0)))):
+        one = np.asarray(vd.inside(pt, tuple(region)))
+        ctx.check(one.shape == () and bool(one) == (w <= x0 <= ee and s <= y0 <= nn), "inside of one point given as %s: shape %s, value %r; the closed box says %r in shape ()", form, one.shape, one.tolist(),
+                  w <= x0 <= ee and s <= y0 <= nn)
     # every point is inside its own bounding region
     own = vd.inside(pcoords, got)
     ctx.check(np.asarray(own).shape == e.shape and np.all(own), "some points are outside their own bounding region")
